@@ -84,6 +84,7 @@ func mkOpts(dir string, o WOpts) *Options {
 	}
 	opts.TCPAddress = "127.0.0.1:0"
 	opts.HTTPAddress = "127.0.0.1:0"
+	opts.HTTPSAddress = "127.0.0.1:0"
 	opts.BroadcastAddress = "127.0.0.1"
 	opts.DataPath = dir
 	opts.MemQueueSize = o.MemQ
@@ -189,6 +190,7 @@ type WConn struct {
 	Frames []Frame // every frame received so far (in order)
 	seen   int     // frames already handed out by Next/Take
 	Closed bool
+	NoPoll bool // the byte stream is consumed by someone else (a TLS client)
 	marks  []wmark // (cumulative bytes written by the server, virtual time of that write)
 	wtotal int
 	rtotal int // bytes consumed by parse
@@ -274,6 +276,12 @@ func (c *WConn) parse() {
 
 // Poll moves whatever bytes have arrived into Frames without blocking or scheduling.
 func (c *WConn) Poll() {
+	if c.NoPoll {
+		if c.C.PeerClosed() && c.C.Buffered() == 0 {
+			c.Closed = true
+		}
+		return
+	}
 	var tmp [4096]byte
 	for c.C.Buffered() > 0 {
 		n, _ := c.C.ReadNoSched(tmp[:])
